@@ -149,7 +149,7 @@ def run(argv):
         elif argv[i] == "--skip-suite": skip_suite = True; i += 1
         else: raise SystemExit("unknown argument " + argv[i])
     verif = HERE
-    env = dict(os.environ)
+    env = dict(os.environ, VERIF_EVIDENCE_DIR=os.path.join(os.path.dirname(os.path.dirname(os.path.abspath(__file__))), "scratch", "evidence-of-broken-trees"))
     if repo != "/repo":
         # redirect the harness crate's path dependency and the runtime file reads to the copy
         ct = os.path.join(verif, "mc", "Cargo.toml")
